@@ -10,7 +10,7 @@ import numpy as np
 from .. import coq
 from ..enumrng import enumerate_outcomes
 from ..kernels import KINDS, make_kernel, make_tree_dist
-from ..trees import all_specs, build_tree, canon, make_data, rational_values, tree_spec
+from ..trees import all_specs, build_tree, canon, coq_nat_list, coq_table, make_data, rational_values, spec_points, spec_root_reps, spec_table, tree_spec
 
 TOL = 1e-9
 
@@ -111,6 +111,7 @@ def qlit(x):
 def run(ctx):
     coq.check_property_file(ctx)
     items = []
+    gitems, gseen = [], set()
     ctx.rule = (
         "every parent state (none, outliers only, every tree over <= n-1 data points with every outlier subset) x next data point x "
         "proposal kind x outlier proposal prob {0, 0.1} x with/without permutation density x alpha: exact outcome distribution of "
@@ -172,6 +173,16 @@ def run(ctx):
                 items.append("chk_%s [%s] %d %s [%s]" % ("full" if kind == "fully-adapted" else "semi", g, R, on, obs))
         except Exception as e:  # an outcome that is not a placement is reported below as 'stray'
             ctx.count("corr_skipped")
+        # grammar item: the trees this proposal can return (as relation tables, with their top-level clones) against the
+        # placements of Model/Grammar.v applied to the parent's table
+        npts = len(values)
+        gkey = (parent, prop_op > 0, frozenset(sampled))
+        if gkey not in gseen:
+            gseen.add(gkey)
+            obs = "; ".join("(%s, %s)" % (coq_table(spec_table(sp, npts)), coq_nat_list(spec_root_reps(sp))) for sp in sorted(sampled))
+            gitems.append("chk_grammar %d %s %s %s %s %d [%s]" % (
+                npts, "true" if prop_op > 0 else "false", coq_nat_list([] if parent is None else spec_points(parent)),
+                coq_nat_list(spec_root_reps(parent)), coq_table(spec_table(parent, npts)), npts - 1, obs))
         # (0) the reported density is a function of the tree
         for spec, e in sampled.items():
             if len(e["lq"]) > 1 and max(e["lq"]) - min(e["lq"]) > 1e-9:
@@ -207,4 +218,20 @@ def run(ctx):
         ctx.obligation("corr_model_eq_impl_%d_proposal_states" % len(items), not bad)
         if bad:
             ctx.broken[-1]["detail"] = {"failing": len(bad), "first_item": items[bad[0]][:600]}
+    # the grammar of Model/Grammar.v (whose words are proved to be in bijection with the compatible forests) against the trees built
+    ok, bad, detail = coq.coq_eval_bool_cases(ctx, "gram", "From PV Require Import Model.GrammarCases.\nOpen Scope nat_scope.", gitems, shard=40)
+    ctx.extra["coq_grammar_cases"] = len(gitems)
+    if not ok:
+        ctx.broken_tie("C08 grammar correspondence file did not evaluate", detail)
+    else:
+        ctx.obligation("corr_grammar_step_eq_impl_%d_parent_states" % len(gitems), not bad)
+        if bad:
+            ctx.broken[-1]["detail"] = {"failing": len(bad), "first_item": gitems[bad[0]][:800]}
+    # canary: a grammar item with one observed tree removed must be rejected
+    if gitems:
+        it = max(gitems, key=len)
+        cut = it.rfind("; ([[")
+        pert = it[:cut] + "]" if cut > 0 else it
+        okc, badc, _ = coq.coq_eval_bool_cases(ctx, "gram_canary", "From PV Require Import Model.GrammarCases.\nOpen Scope nat_scope.", [pert], shard=1, workers=1)
+        ctx.obligation("corr_grammar_canary_missing_tree_rejected", okc and badc == [0] and cut > 0)
     ctx.assumptions += ["enumerating generator = numpy's laws; `choice(a, k, replace=False)` enumerated as ordered samples"]
